@@ -336,9 +336,13 @@ class Gen:
             for _ in range(30):
                 a, b = rng.randrange(ps.n_rows - h + 1), rng.randrange(ps.n_columns - w + 1)
                 c, e = rng.randrange(pd.n_rows - h + 1), rng.randrange(pd.n_columns - w + 1)
-                if rng.random() < 0.25 and h * w > 1:
+                if rng.random() < 0.3 and h * w > 1:
                     cs = [(a + i, b + j) for i in range(h) for j in range(w)]
                     cd = [(c + i, e + j) for i in range(h) for j in range(w)]
+                    if rng.random() < 0.4:
+                        # a well listed twice, as a source or as a destination: the pairs are performed in order on the current wells
+                        which = cs if rng.random() < 0.5 else cd
+                        which[rng.randrange(1, len(which))] = which[0]
                     r1, r2 = {'list': [list(x) for x in cs]}, {'list': [list(x) for x in cd]}
                 else:
                     r1 = {'rect': [list(range(a, a + h)), list(range(b, b + w))]}
@@ -600,5 +604,34 @@ def whole_source_cases(seed):
         if g.emit(op, 'whole:load')['ok']:
             op2 = {'op': 'transfer', 'src': {'p': op['odst'], 'r': row}, 'dst': {'c': pool}, 'q': q('200', 'u', 'L'), 'osrc': g.fresh(), 'odst': g.fresh()}
             g.emit(op2, 'boundary:whole-wells')
+        out.append(g)
+    return out
+
+
+def repeated_well_cases(seed):
+    """directed: element-wise transfers between regions written as lists in which one well is listed twice -- as a source (it gives
+    twice), as a destination (it receives twice) -- between two plates and within one plate; then the plates are used again"""
+    import random
+    out = []
+    for i, (src_l, dst_l, same) in enumerate([([[0, 0], [0, 0]], [[1, 0], [1, 1]], False), ([[0, 0], [0, 1]], [[1, 0], [1, 0]], False),
+                                              ([[0, 0], [0, 0], [0, 2]], [[1, 0], [1, 1], [1, 1]], True), ([[0, 1], [0, 0], [0, 1]], [[1, 2], [1, 2], [1, 0]], False)]):
+        g = Gen(random.Random(seed * 5009 + i), kinds=('Liquid', 'Solid', 'Liquid'))
+        a = g.new_container(nsub=2)
+        p = g.new_plate(rows=2, cols=3, max_ul=1000)
+        t = p if same else g.new_plate(rows=2, cols=3, max_ul=1000)
+        if a is None or p is None or t is None:
+            continue
+        op = {'op': 'transfer', 'src': {'c': a}, 'dst': {'p': p, 'r': {'rect': [[0], [0, 1, 2]]}}, 'q': {'v': '90', 'p': 'u', 'b': 'L'}, 'osrc': g.fresh(), 'odst': g.fresh()}
+        if not g.emit(op, 'repeat:load')['ok']:
+            continue
+        p = op['odst']
+        if same:
+            t = p
+        for q in ('7', '11'):
+            op = {'op': 'transfer', 'src': {'p': p, 'r': {'list': src_l}}, 'dst': {'p': t, 'r': {'list': dst_l}}, 'q': {'v': q, 'p': 'u', 'b': 'L'},
+                  'osrc': g.fresh(), 'odst': g.fresh()}
+            o = g.emit(op, 'repeat:list->list' + (':same' if same else ':two'))
+            if o['ok']:
+                p, t = (op['odst'], op['odst']) if same else (op['osrc'], op['odst'])
         out.append(g)
     return out
